@@ -59,6 +59,8 @@ pub fn format(
         }
     }
 
+    // Nested blocks yield their ranges block by block, not in order of position.
+    open_structure_remove_range.sort_by_key(|range| range.start);
     merge_ranges(&mut ranges, open_structure_remove_range);
     merge_overlapped_ranges(&mut ranges);
     #[cfg(feature = "verif-hooks")]
